@@ -28,6 +28,8 @@ MAP = [  # (substring of the commit subject, property)
  ("xsi:type could substitute a value of any registered class", "C04"),
  ("xsi:type derivation check accepted", "C04"),
  ("xsi:type could swap one array type for another", "C04"),
+ ("attribute cache published a half-built attribute dict", "C12"),
+ ("answered with another request's schema error", "C12"),
  ("null entry in a list of objects was written as an empty object", "C02"),
  ("dict protocols handed a float to functions declaring an Integer", "C04"),
  ("bare methods over the dict protocols crashed on a simple-typed argument", "C10"),
@@ -35,6 +37,9 @@ MAP = [  # (substring of the commit subject, property)
  ("duration too large for timedelta escaped", "C10"),
  ("JSON request declaring an unknown charset escaped", "C10"),
  ("attachment lacking Content-ID raised AttributeError", "C10"),
+ ("multipart/related SOAP requests with an empty body or a non-ascii root part", "C10"),
+ ("YAML request declaring an unknown charset escaped", "C10"),
+ ("does not match the custom format of a DateTime type", "C10"),
  ("document nodes of the wrong kind escaped", "C04"), ("MessagePack handed booleans, maps and lists", "C04"),
  ("malformed base64 or hex text raised binascii.Error", "C10"),
  ("numbers 0 and 1 were accepted for Boolean", "C04"), ("msgpack-rpc message whose type field is a sequence", "C10"),
